@@ -111,7 +111,29 @@ func (r *HostRunner) RunLive(c *LiveCase) error {
 	if err != nil {
 		return err
 	}
-	defer p.Stop()
+	zcase := false
+	defer func() {
+		p.Stop()
+		// whatever the injected bytes made the node allocate must be over before the next case measures its own heap
+		var a, b runtime.MemStats
+		runtime.ReadMemStats(&a)
+		need := 2
+		if zcase {
+			need = 20 // a big allocation grows in few, far apart steps
+		}
+		calm := 0
+		for i := 0; i < 400 && calm < need; i++ {
+			time.Sleep(20 * time.Millisecond)
+			runtime.ReadMemStats(&b)
+			if b.TotalAlloc-a.TotalAlloc < 512*1024 {
+				calm++
+			} else {
+				calm = 0
+			}
+			a = b
+		}
+		runtime.GC()
+	}()
 	p.Relay.Record = true
 	if _, err := p.Connect("ck"); err != nil {
 		return fmt.Errorf("connect: %w", err)
@@ -216,6 +238,9 @@ func (r *HostRunner) RunLive(c *LiveCase) error {
 		}
 		m[0], m[1] = 78, 1
 		binary.BigEndian.PutUint32(m[2:6], uint32(len(m)))
+		if m[7] == 200 {
+			m[7] = 201 // compressed envelopes with a lying size have their own cases (zsize)
+		}
 	}
 	wb.mu.Lock()
 	before := wb.stray
@@ -247,6 +272,7 @@ func (r *HostRunner) RunLive(c *LiveCase) error {
 	line.Changed = string(m) != string(orig)
 	if len(m) > 7 {
 		line.IType = int(m[7])
+		zcase = m[7] == 200
 	}
 	time.Sleep(25 * time.Millisecond)
 	// is everybody else still served?
